@@ -60,7 +60,16 @@ pub fn permute_file(file: &GFile, perm: &[usize]) -> GFile {
 ///    accepted, every order must still give the same outcome.
 pub fn family(rng: &mut Rng) -> (Vec<String>, &'static str) {
     const VALUES: &[&str] = &["#null", "1", "2", "\"a\"", "#true", "[]", "[1]", "@m", "(source-text @m)", "#null", "1"];
-    let which = rng.below(6);
+    let which = rng.below(7);
+    if which == 6 {
+        // the scope of a definition is a local variable that holds another scoped variable's value
+        let st = vec![
+            "(module) @m { let @m.zz_inner = @m }".to_string(),
+            "(module) @m { let zz_alias = @m.zz_inner node zz_alias.zz_made attr (zz_alias.zz_made) k = 1 }".to_string(),
+            "(module) @m { node r edge r -> @m.zz_made }".to_string(),
+        ];
+        return (st, "definition_scope_through_a_local_alias");
+    }
     if which == 4 {
         // two definitions of one scoped variable on one node (with or without `inherit`): a
         // duplicate in every order
